@@ -312,19 +312,28 @@ class Memory:
         return v
 
     # ---------------------------------------------------------- joins
-    def join_states(self, a, b, point):
-        """Least upper bound (approximate) of two states at the merge point `point`."""
+    def join_states(self, a, b, point, loop_head=False, counter_locs=()):
+        """Least upper bound (approximate) of two states at the merge point `point`.
+        At loop heads the phi symbols get their full type range (interval widening)."""
         eng = self.eng
         out = State()
         out.key = a.key
         phis = []
+        self._widen = loop_head
         for loc in a.locs:
             if loc in b.locs:
                 va, vb = a.locs[loc], b.locs[loc]
                 if va is vb or va == vb:
                     out.locs[loc] = va
                 else:
+                    n0 = len(phis)
                     out.locs[loc] = self.join_val(va, vb, "%s|%s" % (point, _locname(loc)), phis, 0)
+                    if loop_head and loc in counter_locs and len(phis) == n0 + 1 and isinstance(out.locs[loc], Int):
+                        p, la, lb = phis[n0]
+                        ent = la if la != Lin.sym(p) else None
+                        if ent is None or interval(ent, eng.bounds)[1] <= (1 << 62):
+                            eng.counters.add(p)
+        self._widen = False
         # facts
         common = a.facts & b.facts
         facts = set(common)
@@ -375,7 +384,7 @@ class Memory:
             p = "phi(%s)" % name
             lo, hi = ty_range(va.w, va.signed)
             # interval hull from both sides when available
-            if va.lin is not None and vb.lin is not None:
+            if va.lin is not None and vb.lin is not None and not getattr(self, "_widen", False):
                 ia = interval(va.lin, eng.bounds)
                 ib = interval(vb.lin, eng.bounds)
                 lo = max(lo, min(ia[0], ib[0])) if min(ia[0], ib[0]) != float("-inf") else lo
@@ -383,9 +392,10 @@ class Memory:
             old = eng.bounds.get(p)
             if old is not None:
                 lo, hi = min(lo, old[0]), max(hi, old[1])
-            eng.bounds[p] = (lo, hi)
-            if va.tags & vb.tags and "len" in (va.tags & vb.tags):
+            if "len" in (va.tags & vb.tags) or (va.lin.single_sym() in eng.len_syms and vb.lin.single_sym() in eng.len_syms):
                 eng.len_syms.add(p)
+                hi = min(hi, eng.len_max) if old is None else hi
+            eng.bounds[p] = (lo, hi)
             phis.append((p, va.lin, vb.lin))
             bits = None
             if va.bits is not None and vb.bits is not None:
@@ -408,7 +418,7 @@ class Memory:
                     else:
                         vs.append((vi, fa))
                 else:
-                    vs.append((vi, da.get(vi) or db.get(vi)))
+                    vs.append((vi, da[vi] if vi in da else db[vi]))
             return Enum(va.ty, tuple(vs), va.name if va.name == vb.name else name)
         if isinstance(va, Slice) and isinstance(vb, Slice) and va.base == vb.base:
             off = self.join_val(_li(va.off), _li(vb.off), name + ".off", phis, depth + 1)
